@@ -10,6 +10,7 @@ import (
 	"strconv"
 	"strings"
 	"testing"
+	"time"
 
 	"pgregory.net/rapid"
 
@@ -28,7 +29,11 @@ var assumptions = []string{
 	"blanks are exactly U+0020",
 }
 
-func TestMain(m *testing.M) { evid.Main(m, "C06", rule, assumptions) }
+func TestMain(m *testing.M) {
+	// C06 states termination: a case that does not return is a violation
+	evid.Watchdog(60 * time.Second)
+	evid.Main(m, "C06", rule, assumptions)
+}
 
 var parser = func() *route.Parser {
 	p, err := route.NewParser()
@@ -205,7 +210,9 @@ func enumerate(t *testing.T, name string, alphabet []byte, maxLen int) {
 		// shard by ordinal of the string; every string belongs to one shard
 		if int(idx%uint64(n)) == k {
 			s := string(buf)
+			evid.Inflight("string", mk(s))
 			out := evid.Protect(func() evid.Outcome { return checkString(s) })
+			evid.InflightDone()
 			bulk.Add(strconv.Quote(s), out.NonTrivial, out.Classes...)
 			if out.Violation != "" {
 				failed = true
